@@ -1797,6 +1797,8 @@ pub fn generate(seed: u64) -> Workload {
         data_size: 0x200,
         bss_size: 0x400,
         debug_sections,
+        // derived from the workload seed without a draw, so that all other choices stay as they were
+        merged_names: lkm && seed % 2 == 1,
     };
     // address the extractor reports = image base chosen by Ghidra + offset in the image
     let (elf_bytes, image_base, text, rodata, data) = if lkm {
